@@ -27,7 +27,7 @@ T = {
          "Trusts the Go race detector (built with -gcflags=all=-d=checkptr=0 because checkptr aborts on the poller's unaligned slot pointer), gettid for thread identity and the 10 s watchdog (normal case < 100 ms).",
          "property-based concurrency testing under the race detector (rapid + -race)", "DESIGN.md §4 C05"),
  "C01": ("exploration",
-         "Model-based property testing (rapid state machine) on a generated world of real descriptors (TCP conns, adapters, FIFO ends, listener, packet conn) with raw peers owned by the harness: the harness decides the composition and order of every poll batch (readiness settled with poll(2)), both completion paths are reached for real (32 nested inline completions, filled buffers), handlers cancel/close/re-arm other objects; per-operation completion counts, Cancel/Close contracts and a count-bounded final drain are checked. Bounded search over schedules, not a proof.",
+         "Model-based property testing (rapid state machine) on a generated world of real descriptors (TCP conns, adapters, FIFO ends, listener, packet conn) with raw peers owned by the harness: the harness decides the composition and order of every poll batch (readiness settled with poll(2)), both completion paths are reached for real (32 nested inline completions, filled buffers), handlers cancel/close/re-arm other objects; Cancel is also called from a callback sitting on 32 nested inline completions, followed there by Close or a new operation; per-operation completion counts, Cancel/Close contracts and a count-bounded final drain are checked. Bounded search over schedules, not a proof.",
          "Trusts poll(2) on RawFd() as the readiness oracle and the harness's raw peers; one read and one write in flight per object; AsyncAdapter writes limited to what fits the socket buffer.",
          "stateful property-based testing with harness-controlled poll batches (rapid)", "DESIGN.md §4 C01"),
  "C02": ("exploration",
